@@ -220,6 +220,13 @@ def gen_cases(ctx):
                 for j, col in enumerate((3, 7, 11)):
                     est[i][col] += f * ext_e * dvec[j]
             shape = shape + "+drift"
+        if storage == "quat+int" or r.random() < 0.04:
+            # position-only data: the estimate's orientations are fillers (identity, or a half turn about an axis) — whole-number
+            # quaternions, handed over as an integer array in the quat+int storage
+            storage = "quat+int"
+            filler = r.choice([[1.0, 0.0, 0.0, 0.0, 1.0, 0.0, 0.0, 0.0, 1.0], [1.0, 0.0, 0.0, 0.0, -1.0, 0.0, 0.0, 0.0, -1.0]])
+            for p_ in est:
+                p_[0:3], p_[4:7], p_[8:11] = filler[0:3], filler[3:6], filler[6:9]
         case = {"kind": shape, "op": op, "ref": ref, "est": est, "storage": storage, "ref_storage": r.choice(STORAGES),
                 "noise": noise, "ratio": ratio, "n": nsel}
         if N >= 4 and r.random() < 0.2:
@@ -238,7 +245,7 @@ def gen_cases(ctx):
 
 
 # ----------------------------------------------------------------------------- implementation
-STORAGES = ["se3", "se3+pos", "se3+quat", "se3+cache", "se3+check", "quat", "quat+poses", "quat+check", "quat+views", "quat+fortran"]
+STORAGES = ["se3", "se3+pos", "se3+quat", "se3+cache", "se3+check", "quat", "quat+poses", "quat+check", "quat+views", "quat+fortran", "quat+int"]
 
 
 def build(rows12, storage, alias=None):
@@ -260,6 +267,10 @@ def build(rows12, storage, alias=None):
             xyz, quat = bx[:, 2:5], bq[::2]
             xyz.setflags(write=False)
             quat.setflags(write=False)
+        if storage == "quat+int" and all(np.array_equal(q_, np.rint(q_)) for q_ in quat):
+            # quaternions that are whole numbers (identity / half turns about an axis: the usual filler for position-only data)
+            # handed over as an integer array: orientations must still be composed in floating point
+            quat = np.rint(quat).astype(np.int64)
         if storage == "quat+fortran":
             # column-major arrays (np.vstack((x, y, z)).T, DataFrame.to_numpy()): `positions_xyz.T` is then C-contiguous, so an
             # "ascontiguousarray" inside an alignment routine is the trajectory's own memory
